@@ -476,12 +476,141 @@ def insert_loop_annotations(body, loops, pre=None):
     return out
 
 
+
+def iter_match_arms(text, mask, lo, hi):
+    """The arms of the FIRST match expression in text[lo:hi]: yields (pattern_text, body_start, body_end) where
+    [body_start, body_end) covers everything after `=>` up to (not including) the arm's terminating comma / the
+    next arm (label and braces of a block arm included)."""
+    m = None
+    for mm in re.finditer(r"\bmatch\b", text[lo:hi]):
+        if mask[lo + mm.start()]:
+            m = mm
+            break
+    if m is None:
+        raise LostAnchor("no match expression found")
+    j = lo + m.end()
+    while not (mask[j] and text[j] == "{"):
+        j += 1
+    close = match_close(text, mask, j)
+    pos = j + 1
+    arms = []
+    while True:
+        while pos < close and (text[pos].isspace() or not mask[pos] or text[pos] == ","):
+            pos += 1
+        if pos >= close:
+            break
+        s = pos
+        depth = 0
+        k = s
+        while k < close:
+            if mask[k]:
+                ch = text[k]
+                if ch in "({[":
+                    depth += 1
+                elif ch in ")}]":
+                    depth -= 1
+                elif ch == "=" and text[k + 1] == ">" and depth == 0:
+                    break
+            k += 1
+        if k >= close:
+            raise LostAnchor("malformed match arm")
+        pattern = text[s:k].strip()
+        b = k + 2
+        e = b
+        while text[e].isspace():
+            e += 1
+        lab = re.match(r"'\w+\s*:\s*", text[e:])
+        if lab:
+            e += lab.end()
+        if text[e] == "{":
+            e = match_close(text, mask, e) + 1
+        else:
+            depth = 0
+            while e < close:
+                if mask[e]:
+                    ch = text[e]
+                    if ch in "({[":
+                        depth += 1
+                    elif ch in ")}]":
+                        if depth == 0:
+                            break
+                        depth -= 1
+                    elif ch == "," and depth == 0:
+                        break
+                e += 1
+        arms.append((pattern, b, e))
+        pos = e
+    return arms
+
+
+def template_fn_header(template_text, name):
+    """(signature, requires, ensures) of fn `name` in a unit template (header = text up to the line that is just `{`)."""
+    m = re.search(r"(?m)^\s*(?:pub\s+)?fn\s+%s\s*\(" % re.escape(name), template_text)
+    if not m:
+        raise LostAnchor("contract of %s not found in its unit" % name)
+    b = re.compile(r"(?m)^\s*\{\s*$").search(template_text, m.end())
+    head = template_text[m.start():b.start()]
+    head = re.sub(r"//[^\n]*", "", head)
+    ri = head.find("requires")
+    ei = head.find("ensures")
+    sig = head[:ri if ri >= 0 else ei]
+    req = head[ri + len("requires"):ei] if ri >= 0 else ""
+    ens = head[ei + len("ensures"):]
+    return norm(sig), norm(req).rstrip(","), ens
+
 def parse_kv(s):
     kv = {}
     for m in re.finditer(r'(\w+)=("((?:[^"\\]|\\.)*)"|\S+)', s):
         kv[m.group(1)] = m.group(3) if m.group(3) is not None else m.group(2)
     return kv
 
+
+
+def slice_type(text, mask, name, kv):
+    """R9 (type slicing): the REAL definition of enum / struct / type alias `name`, verbatim except: attributes and
+    comments dropped (the directive's attrs= are put in their place), visibility made `pub` (item and every named
+    field), explicit discriminants `= <literal>` of enum variants dropped, `extra=` field text appended (ghost fields)."""
+    m = None
+    for mm in re.finditer(r"(?m)^\s*(?:pub(?:\([^)]*\))?\s+)?(enum|struct|type)\s+%s\b" % re.escape(name), text):
+        if mask[mm.start(1)]:
+            m = mm
+            break
+    if m is None:
+        raise LostAnchor("type %s not found" % name)
+    kind = m.group(1)
+    if kind == "type":
+        e = text.index(";", m.end())
+        return "pub type %s%s;" % (name, re.sub(r"\s+", " ", text[m.end():e]))
+    o = m.end()
+    while not (mask[o] and text[o] in "{;("):
+        o += 1
+    if text[o] != "{":
+        raise LostAnchor("type %s is not a braced definition" % name)
+    c = match_close(text, mask, o)
+    inner = "".join(ch if mask[i] else (ch if ch == "\n" else " ") for i, ch in enumerate(text[o + 1:c], o + 1))
+    inner = re.sub(r"(?m)^\s*#\[[^\n]*\]\s*$", "", inner)
+    lines = [l.rstrip() for l in inner.split("\n") if l.strip()]
+    outl = []
+    for l in lines:
+        if kind == "struct":
+            l = re.sub(r"^(\s*)(?:pub(?:\([^)]*\))?\s+)?(\w+\s*:)", r"\1pub \2", l)
+        else:
+            l = re.sub(r"\s*=\s*(?:0[bx])?[0-9a-fA-F_]+\s*,", ",", l)
+        outl.append(l)
+    if kv.get("extra"):
+        outl.append("    " + kv["extra"])
+    head = (kv["attrs"] + "\n") if kv.get("attrs") else ""
+    return "%spub %s %s {\n%s\n}" % (head, kind, name, "\n".join(outl))
+
+
+def expand_types(txt, load, meta):
+    def f(m):
+        kv = parse_kv(m.group(1))
+        t, mk = load(kv["file"])
+        meta["rules"]["R9"] = meta["rules"].get("R9", 0) + 1
+        meta.setdefault("types", []).append("%s:%s" % (kv["file"], kv["name"]))
+        return "// ---- real definition: %s %s (R9) ----\n%s" % (kv["file"], kv["name"], slice_type(t, mk, kv["name"], kv))
+    return re.sub(r"(?m)^\s*//@TYPE\s+([^\n]*)$", f, txt)
 
 def build_unit(template_path, src_dir, verus_dir):
     if not os.path.exists(template_path):
@@ -523,7 +652,9 @@ def build_unit(template_path, src_dir, verus_dir):
                         else:
                             break
                     inc = inc[:start] + inc[bc + 1:]
-            out.append(inc)
+            out.append(expand_types(inc, load, meta))
+        elif s.startswith("//@TYPE"):
+            out.append(expand_types(line, load, meta))
         elif s.startswith("//@LOOP"):
             m = re.match(r"//@LOOP\s+(\d+)\s+(.*)", s)
             loops[int(m.group(1))] = loops.get(int(m.group(1)), "") + " " + m.group(2)
@@ -535,7 +666,23 @@ def build_unit(template_path, src_dir, verus_dir):
             preloops[int(m.group(1))] = preloops.get(int(m.group(1)), "") + " " + m.group(2)
         elif s.startswith("//@VACUITY"):
             out.append("/*@VACUITY*/")
-        elif s.startswith("//@BODY") or s.startswith("//@ARM") or s.startswith("//@MACROFN") or s.startswith("//@PREFIX"):
+        elif s.startswith("//@ASSUMES"):
+            # the contract of a function that ANOTHER unit verifies, as far as this unit needs it: signature taken from
+            # that unit's template; that unit must require exactly `req` and ensure the clause `clause` literally
+            kv = parse_kv(s[len("//@ASSUMES"):])
+            tp = os.path.join(verus_dir, "units", kv["unit"])
+            if not os.path.exists(tp):
+                raise LostAnchor("unit template %s missing" % kv["unit"])
+            sig, req, ens = template_fn_header(open(tp).read(), kv["fn"])
+            if req != norm(kv["req"]):
+                raise LostAnchor("%s in %s requires `%s`, this unit assumes `%s`" % (kv["fn"], kv["unit"], req, kv["req"]))
+            if norm(kv["clause"]) not in norm(ens):
+                raise LostAnchor("%s in %s no longer ensures `%s`" % (kv["fn"], kv["unit"], kv["clause"]))
+            sig_txt = re.search(r"(?m)^\s*(?:pub\s+)?fn\s+%s\s*\([^\n]*" % re.escape(kv["fn"]), open(tp).read()).group(0).strip()
+            out.append("    // PROVED-BY: unit %s (fn %s, real text of the arm)" % (kv["unit"][:-3], kv["fn"]))
+            out.append("    #[verifier::external_body]\n    %s\n        requires %s\n        ensures %s\n    { unimplemented!() }" % (sig_txt, kv["req"], kv["clause"]))
+            meta.setdefault("assumes", []).append("%s:%s" % (kv["unit"], kv["fn"]))
+        elif s.startswith("//@BODY") or s.startswith("//@ARM") or s.startswith("//@MACROFN") or s.startswith("//@PREFIX") or s.startswith("//@DISPATCH"):
             kind = s.split()[0][3:]
             kv = parse_kv(s[len(kind) + 3:])
             text, mask = load(kv["file"])
@@ -547,6 +694,38 @@ def build_unit(template_path, src_dir, verus_dir):
                     raise LostAnchor("signature of %s changed: `%s` (unit expects `%s`)" % (kv["fn"], sig, norm(kv["sig"])))
                 body = text[bo + 1:bc]
                 where = "%s:%s (lines %d-%d)" % (kv["file"], kv["fn"], text.count("\n", 0, bo) + 1, text.count("\n", 0, bc) + 1)
+            elif kind == "DISPATCH":
+                # R15 (arm outlining): the real function with the body of EVERY arm of its top-level match replaced by a
+                # call of the function that holds that arm's real text in another unit (//@ARM there). Patterns,
+                # scrutinee, arm order and everything outside the arms are the real text. An arm that the map does
+                # not name, or a mapped arm that no longer exists, is a lost anchor.
+                fs, bo, bc = find_fn(text, mask, kv["fn"], kv.get("impl"))
+                sig = norm(text[fs:bo])
+                if "sig" in kv and norm(kv["sig"]) != sig:
+                    raise LostAnchor("signature of %s changed: `%s` (unit expects `%s`)" % (kv["fn"], sig, norm(kv["sig"])))
+                amap = {}
+                for ent in kv["map"].split("|"):
+                    pat, call = ent.split("=>")
+                    amap[norm(pat)] = call.strip()
+                arms = iter_match_arms(text, mask, bo, bc)
+                seen = set()
+                body = ""
+                cur = bo + 1
+                for pattern, b, e in arms:
+                    key = norm(pattern)
+                    if key not in amap:
+                        raise LostAnchor("arm `%s` of %s is not under contract (no arm unit is mapped to it)" % (pattern, kv["fn"]))
+                    if key in seen:
+                        raise LostAnchor("arm `%s` of %s occurs twice" % (pattern, kv["fn"]))
+                    seen.add(key)
+                    body += text[cur:b] + " { " + amap[key] + "?; }"
+                    cur = e
+                body += text[cur:bc]
+                missing = set(amap) - seen
+                if missing:
+                    raise LostAnchor("arms %s of %s no longer exist" % (sorted(missing), kv["fn"]))
+                meta["rules"]["R15"] = meta["rules"].get("R15", 0) + len(arms)
+                where = "%s:%s dispatcher, %d arms outlined (lines %d-%d)" % (kv["file"], kv["fn"], len(arms), text.count("\n", 0, bo) + 1, text.count("\n", 0, bc) + 1)
             elif kind == "PREFIX":
                 # the statements of a function from its first line up to (not including) the text `until`
                 fs, bo, bc = find_fn(text, mask, kv["fn"], kv.get("impl"))
